@@ -153,6 +153,23 @@ CHECKS["C07"] = dict(
          "covered by C01's generator.",
     technique="TLC enumeration of pattern matrices with semantic verdicts; exhaustive replay into the real checker and compiled code")
 
+CHECKS["C16"] = dict(
+    category="model_checking",
+    text="Shrink.tla defines fuzzers as prefix-deterministic readers of choice sequences (constant, fixed and data-dependent lengths, "
+         "rejecting ('None on replay'), branching), properties, the three failure expectations, Status, and the short-lex order. "
+         "MC_ShrinkCache models the result cache the way the code works (longest stored prefix, Invalid only answers for itself, pruning "
+         "of extensions); TLC explores every query history in the bound checking that every answer is the true status, and every "
+         "history is replayed on the real Cache. MC_Shrink is the property spec of shrinking (Consider is the only way `best` changes; "
+         "best stays real and never longer); every first failing case in its bound plus random longer ones is shrunk by the real "
+         "Counterexample::simplify driven by closure fuzzers mirroring the catalogue, and each run (query log, final choices, value) "
+         "is validated by the trace spec Obs_Shrink: real counterexample, replays to its value, short-lex no larger than the first "
+         "failing case, every query answered truthfully, terminated; repeated runs give the same report.",
+    design_ref="DESIGN.md section 6 C16, section 4.8",
+    note="Fuzzers are abstract closures, not compiled Aiken fuzzers: PropertyTest::run's seed / label / iteration bookkeeping and the "
+         "`fail` / `fail once` verdict inversion are stated in Shrink.tla (TestPasses) but not bound to the code by this check. The "
+         "simplify algorithm is not transcribed (only its observable contract is specified).",
+    technique="TLC over all cache query histories + replay; TLA+ property spec of shrinking; trace validation of real simplify() runs")
+
 NOT_BUILT = "not built yet (machinery under construction, see DESIGN.md section 10)"
 
 
